@@ -106,6 +106,21 @@ static rc::Gen<Case> gen_number_text(int nt) {
   return rc::gen::map(rc::gen::oneOf(glue, glue, printed, wider, gen_bytes(10)), [nt](const std::string& s) { Case c; c.i = {nt}; c.s = {s}; return c; });
 }
 
+// PhQ::Lowercase / Uppercase / SnakeCase on arbitrary bytes: same length, ASCII letters mapped, everything else unchanged (blanks -> '_' in snake case)
+static Verdict c20_string_helpers(const Case& c) {
+  const std::string& s = c.s[0];
+  const std::string lo = Lowercase(s), up = Uppercase(s), sn = SnakeCase(s);
+  if (lo.size() != s.size() || up.size() != s.size() || sn.size() != s.size()) return Verdict::fail(fmt("Lowercase/Uppercase/SnakeCase(\"%s\") changed the length", show(s).c_str()));
+  for (size_t i = 0; i < s.size(); i++) {
+    const unsigned char ch = (unsigned char)s[i];
+    const char wl = (ch >= 'A' && ch <= 'Z') ? (char)(ch + 32) : (char)ch, wu = (ch >= 'a' && ch <= 'z') ? (char)(ch - 32) : (char)ch, ws = ch == ' ' ? '_' : wl;
+    if (lo[i] != wl) return Verdict::fail(fmt("Lowercase(\"%s\")[%zu] = 0x%02x, expected 0x%02x", show(s).c_str(), i, (unsigned char)lo[i], (unsigned char)wl));
+    if (up[i] != wu) return Verdict::fail(fmt("Uppercase(\"%s\")[%zu] = 0x%02x, expected 0x%02x", show(s).c_str(), i, (unsigned char)up[i], (unsigned char)wu));
+    if (sn[i] != ws) return Verdict::fail(fmt("SnakeCase(\"%s\")[%zu] = 0x%02x, expected 0x%02x", show(s).c_str(), i, (unsigned char)sn[i], (unsigned char)ws));
+  }
+  Verdict V; V.nontrivial = !s.empty(); V.cls = "string-helpers"; return V;
+}
+
 int main(int argc, char** argv) {
   load_types();
   std::vector<Sub> subs;
@@ -121,6 +136,13 @@ int main(int argc, char** argv) {
     s.instance_name = [](int inst) { return std::string(ntinfo(inst).name); };
     s.rule = "ParseNumber<float|double|long double> on strings glued from number fragments (digits, signs, exponents, hex floats, inf/nan spellings, out-of-range magnitudes, blanks, NUL, non-ASCII), printed numbers of this and of a wider type, "
              "random bytes; oracle: never throws, has a value iff strtof/strtod/strtold on the same NUL-terminated prefix consumes >= 1 character without ERANGE, with identical bits; non-trivial: non-empty input";
+    subs.push_back(s);
+  }
+  {
+    Sub s; s.name = "c20.string_helpers"; s.property = "C20"; s.instances = 1; s.n_quick = 50000; s.n_thorough = 1000000; s.run = c20_string_helpers;
+    s.gen = [](int) { auto words = rc::gen::map(rc::gen::tuple(irange(0, (int)g_types.size() - 1), irange(0, 100000)), [](const std::tuple<int, int>& t) { const EnumType& O = g_types[(size_t)std::get<0>(t)]; return O.keys[(size_t)std::get<1>(t) % O.keys.size()].first; });
+      return rc::gen::map(rc::gen::oneOf(gen_bytes(24), words), [](const std::string& x) { Case c; c.s = {x}; return c; }); };
+    s.rule = "PhQ::Lowercase / Uppercase / SnakeCase on arbitrary byte strings (incl. non-ASCII, NUL) and on accepted spellings: length preserved, ASCII letters mapped, other bytes unchanged, blanks -> underscore";
     subs.push_back(s);
   }
   { Sub s = subs[0]; s.name = "c20.parse_enumeration"; s.property = "C20"; s.n_quick = 2000; s.n_thorough = 100000; subs.push_back(s); }
